@@ -73,6 +73,20 @@ def module_constants(module):
     return {k: v for k, v in vals.items() if count.get(k) == 1}
 
 
+def module_defs(module):
+    """{name: FunctionDef} of the module-level functions defined exactly once (helpers without a contract are interpreted inline)"""
+    src, tree = module_ast(module)
+    out, count = {}, {}
+    for n in tree.body:
+        if isinstance(n, ast.FunctionDef):
+            count[n.name] = count.get(n.name, 0) + 1
+            out[n.name] = n
+        for t in (n.targets if isinstance(n, ast.Assign) else []):
+            if isinstance(t, ast.Name):
+                count[t.id] = count.get(t.id, 0) + 1
+    return {k: v for k, v in out.items() if count.get(k) == 1}
+
+
 def _const_value(node):
     """int / str / bool literal, or integer arithmetic over literals (1 << 16, 4 * 1024, -1): None for anything else"""
     if isinstance(node, ast.Constant) and isinstance(node.value, (int, str, bool)):
@@ -147,6 +161,7 @@ def verify_unit(args):
             ext = getattr(cset, 'extern', {}).get(c.module, {})
             v = FunctionVerifier(cset, c, node, tr, extern=ext)
             v.module_consts = module_constants(c.module)
+            v.module_defs = module_defs(c.module)
             obs = v.obligations()
             lemmas = list(cset.lemmas)
             serves = c.serves
